@@ -28,7 +28,7 @@ let parse_acts (s : string) : act list =
   List.filter_map (fun a ->
     if String.length a < 2 then None else
     let k = nat_of_int (int_of_string (String.sub a 1 (String.length a - 1))) in
-    match a.[0] with 'c' -> Some (AClose k) | 's' -> Some (ASave k) | 'p' -> Some (APerm k) | 'k' -> Some (AKeep k) | _ -> None)
+    match a.[0] with 'c' -> Some (AClose k) | 's' -> Some (ASave k) | 'p' | 'P' -> Some (APerm k) | 'k' -> Some (AKeep k) | _ -> None)
     (String.split_on_char '.' s)
 let status_txt = function PEof -> "eof" | PError -> "error" | PIncomplete -> "incomplete" | PEarlyEof -> "earlyeof" | PFuel -> "MODEL-FUEL"
 let tev_txt = function TM -> "M" | TP k -> "P" ^ string_of_int (int_of_n k) | TR k -> "R" ^ string_of_int (int_of_n k)
@@ -59,13 +59,23 @@ let run_rq ?(rf=false) ?(acts="-") mode cl mp mem declared ct body =
   let r = if mode.[0] = 'a' then request_service_ab l (n_of_int ab) ct (nat_of_int declared) body
           else request_service l (mode = "r") ct (nat_of_int declared) body in
   let st = int_of_n r.sv_status in
-  let filt = declared > 0 && (mode = "m" || mode = "r" || mode.[0] = 'a') in
-  let pairs = List.map (fun (k, v) -> hex_of_bytes k ^ "=" ^ hex_of_bytes v) (deliver_post r.sv_entries @ r.sv_pairs) in
+  let filt = declared > 0 && (mode = "m" || mode = "r" || mode.[0] = 'a' || mode.[0] = 'R') in
+  let rmode_of = function 'a' -> RAll | 'p' -> RPart | 'e' -> REnd | 'm' -> RMid | 's' -> RStream | _ -> RNone in
+  let is_r = String.length mode = 4 && mode.[0] = 'R' in
+  (* a reading filter: the stream state each part is left in, and what on_data_ready saw *)
+  let through (f : pfile) = part_through_filter (rmode_of mode.[1]) (rmode_of mode.[3]) (List.rev (f_rdata f)) in
+  let post_pairs =
+    if is_r then List.map (fun f -> (f_name f, post_value (List.rev (f_rdata f)) (fst (through f)))) (List.filter (fun f -> not (has_mime f)) r.sv_entries)
+    else deliver_post r.sv_entries in
+  let pairs = List.map (fun (k, v) -> hex_of_bytes k ^ "=" ^ hex_of_bytes v) (post_pairs @ r.sv_pairs) in
   let pairs = List.sort compare pairs in
   let files = List.map entry_txt (deliver_files r.sv_entries) in
   let fv = r.sv_fev in
-  let rd = List.rev_map entry_txt fv.rreadyd in
-  let is_m = mode = "m" || mode.[0] = 'a' in
+  let entry_r (f : pfile) = hex_of_bytes (f_name f) ^ "," ^ hex_of_bytes (f_filename f) ^ "," ^ hex_of_bytes (f_mime f) ^ "," ^
+    (if mode.[3] = 'a' || mode.[3] = 's' then hex_of_bytes (snd (through f)) else "*") in
+  let rd = List.rev_map (if is_r then entry_r else entry_txt) fv.rreadyd in
+  let hand = if not is_r then 0 else List.length (List.filter (fun f -> let d = List.rev (f_rdata f) in handed d (fst (through f)) <> d) (deliver_files r.sv_entries)) in
+  let is_m = mode = "m" || mode.[0] = 'a' || mode.[0] = 'R' in
   let lc = if st = 200 then lifecycle (n_of_int mem) r.sv_entries None (HReady (parse_acts acts))
            else lifecycle (n_of_int mem) [] None HRefused in
   let (o1, d1) = if st = 200 then pr (l_start lc) else (0, 0) in
@@ -81,7 +91,7 @@ let run_rq ?(rf=false) ?(acts="-") mode cl mp mem declared ct body =
     (if filt && st = 200 then 1 else 0) (if filt && st <> 200 && st <> 403 then 1 else 0)
     (hex_of_bytes (if mode = "r" && st <> 413 then r.sv_raw else []))
     d1 d4 o1 o4
-    (if rf then Printf.sprintf " R %d,%d;%d,%d" o2 d2 o3 d3 else "")
+    ((if is_r then Printf.sprintf " hand=%d" (if st = 200 then hand else 0) else "") ^ (if rf then Printf.sprintf " R %d,%d;%d,%d" o2 d2 o3 d3 else ""))
 let () = main_loop (fun toks -> match (match toks with
     | ["mp"; a; b; c; d; _] -> ["mp"; a; b; c; d] | ["all2"; a; b; c; _] -> ["all2"; a; b; c]
     | ["rq"; a; b; c; d; e; f; g; h; i; _] -> ["rq"; a; b; c; d; e; f; g; h; i]
@@ -103,6 +113,44 @@ let () = main_loop (fun toks -> match (match toks with
            let (stt, nf, ft, ct, alive, tr) = run mem key body (parse_cuts cuts n) in
            Printf.sprintf "mp %s %d%s cur=%s T %s tmp=%d,0 fd=%d,0" stt nf ft ct tr alive alive
        | _ -> "mp MODEL-FUEL")
+  | ["fi"; mem; ct; cuts; body; faults] | ["fi"; mem; ct; cuts; body; faults; _] ->
+      let mem = int_of_string mem in
+      let body = bytes_of_hex body in
+      (match ct_boundary (bytes_of_hex ct) with
+       | FOk [] -> "fi refused"
+       | FOk key ->
+           let n = List.length body in
+           let bnd = make_boundary key in
+           let ((stt, s), _) = drive bnd init_state (chunks_of body (parse_cuts cuts n)) [] in
+           let files = List.rev (rfiles s) in
+           let all = files @ (if ready s then [cur s] else []) in
+           let q = ref None and ofail = ref false and sfail = ref false and cfail = ref false in
+           List.iter (fun t -> if t <> "" && t <> "-" then match t.[0] with
+             | 'q' -> q := Some (n_of_int (int_of_string (String.sub t 1 (String.length t - 1))))
+             | 'o' -> ofail := true | 's' -> sfail := true | 'c' -> cfail := true | _ -> ()) (String.split_on_char '.' faults);
+           let lim = n_of_int (lim_of_mem mem) in
+           let fr = write_entries_q lim !q !ofail !sfail all in
+           (* without a failing write the last element of `all` may be the entry in progress: it is not synced *)
+           let failed = fr.fr_failed in
+           let done_objs, curo =
+             if failed then (fr.fr_done, fr.fr_cur)
+             else if ready s then
+               (* recompute: completed entries synced, the one in progress written only *)
+               let frd = write_entries_q lim !q !ofail !sfail files in
+               let frc = write_entries_q lim !q !ofail false [cur s] in
+               (frd.fr_done, (match frc.fr_done with (o, _) :: _ -> Some o | [] -> None))
+             else (fr.fr_done, None) in
+           let ndone = List.length done_objs in
+           let names = List.filteri (fun i _ -> i < ndone) all in
+           let ent = String.concat "" (List.map2 (fun f (o, ok) ->
+             let sz = int_of_n (fo_size o) in
+             Printf.sprintf " %s:%d:%d" (hex_of_bytes (f_name f)) sz (if ok then sz else 0)) names done_objs) in
+           let objs = List.map fst done_objs @ (match curo with Some o -> [o] | None -> []) in
+           let after = destroy_all_q !q !sfail !cfail objs in
+           Printf.sprintf "fi %s %d%s cur=%s tmp=%d,%d fd=%d,%d" (if failed then "noroom" else status_txt stt) ndone ent
+             (match curo with Some o -> string_of_int (int_of_n (fo_size o)) | None -> "none")
+             (int_of_n (n_disk objs)) (int_of_n (n_disk after)) (int_of_n (n_open objs)) (int_of_n (n_open after))
+       | _ -> "fi MODEL-FUEL")
   | ["all2"; mem; ct; body] ->
       let mem = int_of_string mem in
       let body = bytes_of_hex body in
